@@ -15,6 +15,8 @@ import (
 	"fmt"
 	"math/big"
 	"strings"
+
+	"github.com/ossrs/go-oryx-lib/https/jose/cipher"
 )
 
 var vC16SigAlgs = []SignatureAlgorithm{HS256, HS384, HS512, RS256, RS384, RS512, PS256, PS384, PS512, ES256, ES384, ES512}
@@ -817,6 +819,29 @@ func vC16Fixed(k *vKit) {
 	}
 	vC16RunStruct(k, vL(vZ(3), vS(a1)))
 	k.count("vector", "rfc7515-a1")
+	// RFC 7518 Appendix C: ECDH-ES key agreement (used only if the quoted keys are self-consistent)
+	{
+		var alice, bob JsonWebKey
+		e1 := alice.UnmarshalJSON([]byte(`{"kty":"EC","crv":"P-256","x":"gI0GAILBdu7T53akrFmMyGcsF3n5dO7MmwNBHKW5SV0","y":"SLW_xSffzlPWrHEVI30DHM_4egVwt3NQqeUD7nMFpps","d":"0_NxaRPUMQoAJt50Gz8YiTr8gRTwyEaCumd-MToTmIo"}`))
+		e2 := bob.UnmarshalJSON([]byte(`{"kty":"EC","crv":"P-256","x":"weNJy2HscCSM6AEDTDg04biOvhFhyyWvOHQfeF_PxMQ","y":"e8lnCO-AlStT-NJVX-crhB7QRYhiix03illJOVAOyck","d":"VEmDZpDXXK8p8N0Cndsxs924q6nS1RXFASRl6BfUqdw"}`))
+		ok := e1 == nil && e2 == nil
+		if ok {
+			a, b := alice.Key.(*ecdsa.PrivateKey), bob.Key.(*ecdsa.PrivateKey)
+			ax, ay := a.Curve.ScalarBaseMult(a.D.Bytes())
+			bx, by := b.Curve.ScalarBaseMult(b.D.Bytes())
+			ok = ax.Cmp(a.X) == 0 && ay.Cmp(a.Y) == 0 && bx.Cmp(b.X) == 0 && by.Cmp(b.Y) == 0
+			if ok {
+				got := josecipher.DeriveECDHES("A128GCM", []byte("Alice"), []byte("Bob"), b, &a.PublicKey, 16)
+				if vC16B64.EncodeToString(got) != "VqqN6vgjbSBcIijNcacQGg" {
+					k.fail(0, 1, "rfc7518-appendix-c", "", fmt.Sprintf("DeriveECDHES = %s, RFC 7518 C gives VqqN6vgjbSBcIijNcacQGg", vC16B64.EncodeToString(got)))
+				}
+				k.count("vector", "rfc7518-appendix-c")
+			}
+		}
+		if !ok {
+			k.count("vector", "rfc7518-appendix-c-skipped")
+		}
+	}
 	// ECDSA signatures until r or s has a leading zero byte: fixed width r||s (kind 14)
 	for _, alg := range []SignatureAlgorithm{ES256, ES384, ES512} {
 		c := vC16CurveFor(string(alg), 0)
